@@ -10,7 +10,7 @@ definition.  acorr / lag_matrix / toeplitz are compared with their plain sums.
 """
 from collections import OrderedDict
 from fractions import Fraction as F
-import itertools
+import itertools, math
 from ..runner import Kind, R, bad
 from ..exact import Q
 from ..ref import lpcref
@@ -132,6 +132,27 @@ def run_reflection(case):
     if fr(filt.error) != e:
       return bad("levinson:error-product", "error != r0 * prod(1 - k_m^2)", e, filt.error, nt)
     held.append((order, filt, e, list(ra)))
+    # the same lags as plain Python ints with a common factor (and as plain Fractions): the solution does
+    # not depend on the scale of the lags, the error attribute scales with it
+    if order is not None and order <= p:
+      lcm = 1
+      for v in r:
+        lcm = lcm * F(v).denominator // math.gcd(lcm, F(v).denominator)
+      for scale, typ in ((6 * lcm, "int"), (F(1, 3), "Fraction")):
+        lags = [int(v * scale) for v in r] if typ == "int" else [v * scale for v in r]
+        try:
+          f2 = levinson_durbin(list(lags), order)
+        except Exception as exc:
+          return bad("levinson:lag-types", "levinson_durbin raised for %s lags" % typ, None, str(exc)[:160], nt)
+        a2 = [F(v) if typ != "int" else v for v in f2.numerator]
+        a2 = a2 + [0] * (len(ra) - len(a2))
+        tol = 1e-9          # plain ints and Fractions meet float constants inside the library
+        if any(abs(float(x_) - float(y_)) > tol * (1 + abs(float(y_))) for x_, y_ in zip(a2, ra)) or \
+           abs(float(f2.error) - float(e * scale)) > max(tol, 1e-12) * (1 + abs(float(e * scale))):
+          return bad("levinson:lag-types", "with %s lags (the same sequence times %s) the coefficients must be the "
+                     "same and the error must scale with the lags" % (typ, scale),
+                     {"a": [str(v) for v in ra], "error": str(e * scale)},
+                     {"a": [str(v) for v in a2], "error": str(f2.error)}, nt)
   # every result is its own object: later calls (other orders, other lags) leave the earlier results alone
   other = levinson_durbin(qs([F(7)] + [F(0)] * p), p)            # white lags: every reflection coefficient is zero
   for i, (order, filt, e, ra) in enumerate(held):
